@@ -56,7 +56,7 @@ def run(tier):
     res = common.Result()
     res.assumptions = list(_e2.ASSUME)
     cfgs = configs(tier)
-    _e2.run_matrix('C04', 'oracle_values', [(c, 'P', None) for c in cfgs], res, 'mode P, all schedules')
+    _e2.run_matrix('C04', 'oracle_values', [(c, 'D', None) for c in cfgs], res, 'mode D (DPOR + sleep sets), all schedules')
     lcfgs = [c for c in cfgs if c['backend'] == 't' and c['mode'] == 'values' and c['n'] in (2, 3)
              and len(c['consumers']) == 2 and c['consumers'][0] == ['exhaust']]
     bound = 1 if tier == 'quick' else 2
@@ -64,7 +64,19 @@ def run(tier):
     _e2.run_matrix('C04', 'oracle_values', [(c, 'L', bound) for c in lcfgs], res,
                    f'mode L, every source line, preemption bound {bound}')
     res.coverage['preemption_bound_completed'] = bound
+    # pipelines whose stages are executed concurrently by the workers: every source line of lazy_dataset.core is a
+    # scheduling point as well (lazily built per-stage state, e.g. cached key tuples or offsets, is shared by the workers)
+    comp = []
+    for pre in (['tile2'], ['concat_map'], ['slice_rev'], ['sort'], ['intersperse_map'], ['zip_map'], ['key_zip_map'],
+                ['cache'], ['items'], ['concat_map', 'slice_rev'], ['tile2', ['batch', 2]], ['slice_rev', 'sort']):
+        for n in ((1, 2) if tier == 'quick' else (1, 2, 3)):
+            comp.append(dict(entry='prefetch', n=n, w=2, b=2, backend='t', pre=pre, copy_first=(n == 1)))
+    _e2.run_matrix('C04', 'oracle_values', [(c, 'D', None) for c in comp], res, 'composed pipelines, mode D')
+    _e2.run_matrix('C04', 'oracle_values', [(c, 'L', 1) for c in comp if c['n'] == 2 or tier == 'thorough'], res,
+                   'composed pipelines, mode L: every source line of core.py and parallel_utils.py, preemption bound 1',
+                   cap=40000)
     static_len(res)
+    _e2.crosscheck(res)
     return _e2.finish(res, 2000)
 
 
